@@ -3,7 +3,8 @@
    Proofs/ReassemblyGenProofs.v (code translated on this run = model). *)
 From Coq Require Import ZArith List Bool Lia Permutation.
 From BV Require Import Lib.PyVal Lib.Cases Model.Reassembly Gen.K_reassembly
-     Proofs.ReassemblyProofs Proofs.ReassemblyGenProofs Proofs.ReassemblyImapProofs.
+     Proofs.ReassemblyProofs Proofs.ReassemblyGenProofs Proofs.ReassemblyImapProofs
+     Proofs.ReassemblyChunkedProofs Proofs.ReassemblyFailureProofs.
 Import ListNotations.
 Open Scope Z_scope.
 
@@ -200,6 +201,52 @@ Theorem C02_map_failure_own_input :
 Proof. intros A E. exact (@map_first_failure_wins A E). Qed.
 Print Assumptions C02_map_failure_own_input.
 
+(* THE FAILURE IS ONE OF THIS JOB'S OWN CHUNKS (audit follow-up, 2026-09-23; strictly
+   stronger than the conclusion of C02_map_failure_own_input for a fresh job, and than
+   C02_map_any_order for cache-guarded delivery: acknowledgements are interleaved).
+   l, k: THIS call's input and chunk size; chunk i fails iff F i, with record e_of i;
+   h: any history of the job as the result handler sees it -- Dlv i = the READY message
+   of chunk i handled through the cache look-up (MFail i (e_of i) if F i, else
+   MOk i (map f chunk_i)), Ack i = the ACK message of chunk i (MapResult._ack), each
+   chunk's result at most once, all indices < number of chunks.  No operation raises;
+   if some handled chunk failed, get() re-raises e_of j for j = the FIRST failing chunk
+   in handling order (find F (dlvs h)), j < number of chunks of this job and chunk j is
+   the inputs l[j*k : (j+1)*k] of this call; error callback once with that record,
+   success callback never; otherwise the conclusion of C02_map_any_order. *)
+Theorem C02_map_failure_is_own_chunk :
+  forall (A B E : Type) (none : B) (f : A -> B) (l : list A) (k : nat),
+    (1 <= k)%nat ->
+    forall (hc he : bool) (e_of : nat -> E) (F : nat -> bool) (h : list mev),
+    NoDup (dlvs h) -> (forall x, In x (dlvs h) -> (x < length (chunks l k))%nat) ->
+    (forall x, In x (acks h) -> (x < length (chunks l k))%nat) ->
+    let m := length (chunks l k) in
+    let r := map_run (map_init none (Z.of_nat (length l)) (Z.of_nat k) hc he)
+                     (map (mev_op f l k e_of F) h) in
+    let st := fst r in
+    snd r = repeat OUnit (length h) /\
+    match find F (dlvs h) with
+    | Some j =>
+        (j < m)%nat /\ F j = true /\
+        nth j (chunks l k) [] = firstn k (skipn (j * k) l) /\
+        (exists pre post, dlvs h = (pre ++ j :: post)%list /\ forall i, In i pre -> F i = false) /\
+        map_get st = ORaise (e_of j) /\ m_value st = VErr (e_of j) /\
+        m_success st = false /\ m_ready st = true /\ m_incache st = false /\
+        m_ecb st = (if he then [e_of j] else []) /\ m_cb st = []
+    | None =>
+        m_left st = Z.of_nat m - Z.of_nat (length (dlvs h)) /\
+        m_success st = true /\
+        m_ready st = ((0 <? length (dlvs h))%nat && (length (dlvs h) =? m)%nat) /\
+        m_incache st = negb (m_ready st) /\
+        m_cb st = (if hc && m_ready st then [map f l] else []) /\
+        m_ecb st = [] /\
+        map_get st = (if m_ready st then OList (map f l) else OTimeout)
+    end.
+Proof.
+  intros A B E none f l k Hk hc he e_of F h.
+  exact (map_failure_is_own_chunk none f l k Hk hc he e_of F h).
+Qed.
+Print Assumptions C02_map_failure_is_own_chunk.
+
 (* object level, without the cache look-up: a success after a failure raises *)
 Theorem C02_map_set_after_failure : forall (A E : Type) (st : mres A E) i r e0,
     m_value st = VErr e0 -> map_set st (MOk i r) = (st, Some TypeError).
@@ -322,6 +369,101 @@ Theorem C02_imap_chunked_dead_forever_partial :
 Proof. intros V E. exact (@flat_dead_forever V E). Qed.
 Print Assumptions C02_imap_chunked_dead_forever_partial.
 
+(* THE POSITIVE THEOREM (audit follow-up, 2026-09-23).  chunks: the outcome of every
+   chunk (Good (map f chunk_i) or Bad e); h: ANY interleaving of chunk arrivals (each
+   index at most once), the length announcement (at most once, anywhere) and the
+   consumer's next() calls, on the generator
+   (item for chunk in result for item in chunk) over the IMapIterator of chunk results.
+     chunked_expected chunks =
+       map OYield (concat (good_prefix chunks))          -- leading good chunks, flattened
+       ++ match first_bad chunks with Some e => [ORaise e] | None => [] end
+   The consumer sees a prefix of that -- the sequential results in input order; if a
+   chunk failed: the values of the chunks before the first failing one, then
+   Exception(e) -- and StopIteration only after ALL of it; without a failing chunk only
+   after every chunk arrived and the length was announced.  No _set raises (view keeps
+   OExn).  After a failing chunk the iteration is OVER: that is the code's behaviour
+   (known finding C02:imap-chunked-error-ends-iteration), modelled as it is. *)
+Theorem C02_chunked_expected_def :
+  forall (V E : Type) (cs : list (item (list V) E)),
+    chunked_expected cs =
+    (map OYield (concat (good_prefix cs)) ++
+     match first_bad cs with Some e => [ORaise e] | None => [] end)%list /\
+    good_prefix cs = (match cs with Good vs :: r => vs :: good_prefix r | _ => [] end) /\
+    first_bad cs = (match cs with [] => None | Good _ :: r => first_bad r | Bad e :: _ => Some e end).
+Proof. exact chunked_expected_def. Qed.
+Print Assumptions C02_chunked_expected_def.
+
+Theorem C02_imap_chunked_in_order :
+  forall (V E : Type) (chunks : list (item (list V) E)) (dflt : item (list V) E)
+         (d : bool) (h : list ev),
+    wf chunks h ->
+    exists t s,
+      view (snd (flat_run false flat_init (map (ev_op chunks dflt d) h))) =
+        (firstn t (chunked_expected chunks) ++ repeat OStop s)%list /\
+      (t <= length (chunked_expected chunks))%nat /\
+      ((0 < s)%nat ->
+       t = length (chunked_expected chunks) /\
+       (first_bad chunks = None ->
+        count_len h = 1%nat /\ forall i, (i < length chunks)%nat -> In i (arrivals h))).
+Proof. intros V E chunks dflt d h. exact (chunked_in_order chunks dflt d h). Qed.
+Print Assumptions C02_imap_chunked_in_order.
+
+(* completeness: every chunk arrives, the length is announced, the consumer keeps pulling *)
+Theorem C02_imap_chunked_complete :
+  forall (V E : Type) (chunks : list (item (list V) E)) (dflt : item (list V) E)
+         (d : bool) (h : list ev),
+    wf chunks h -> (forall i, (i < length chunks)%nat -> In i (arrivals h)) ->
+    count_len h = 1%nat ->
+    exists s,
+      view (snd (flat_run false flat_init
+                   (map (ev_op chunks dflt d) h ++
+                    repeat INext (S (length (chunked_expected chunks))))%list)) =
+        (chunked_expected chunks ++ repeat OStop (S s))%list.
+Proof. intros V E chunks dflt d h. exact (chunked_complete chunks dflt d h). Qed.
+Print Assumptions C02_imap_chunked_complete.
+
+(* no failing chunk: exactly the sequential results, in input order, then only stops *)
+Theorem C02_imap_chunked_all_good :
+  forall (V E : Type) (vs : list (list V)) (dflt : item (list V) E) (d : bool) (h : list ev),
+    let chunks := map (@Good (list V) E) vs in
+    wf chunks h -> (forall i, (i < length vs)%nat -> In i (arrivals h)) ->
+    count_len h = 1%nat ->
+    exists s,
+      view (snd (flat_run false flat_init
+                   (map (ev_op chunks dflt d) h ++
+                    repeat INext (S (length (concat vs))))%list)) =
+        (map OYield (concat vs) ++ repeat OStop (S s))%list.
+Proof. exact chunked_all_good. Qed.
+Print Assumptions C02_imap_chunked_all_good.
+
+(* imap_unordered(chunksize > 1): the same generator over the IMapUnorderedIterator --
+   the chunks in ARRIVAL order (uarrived h), the items of a chunk in their own order;
+   N = the number of chunks that is (or will be) announced *)
+Theorem C02_imapu_chunked_arrival_order :
+  forall (V E : Type) (N : nat) (d : bool) (h : list (@uev (list V) E)),
+    (length (uarrived h) <= N)%nat -> (ucount_len h <= 1)%nat ->
+    exists t s,
+      view (snd (flat_run true flat_init (map (uev_op N d) h))) =
+        (firstn t (chunked_expected (uarrived h)) ++ repeat OStop s)%list /\
+      (t <= length (chunked_expected (uarrived h)))%nat /\
+      ((0 < s)%nat ->
+       t = length (chunked_expected (uarrived h)) /\
+       (first_bad (uarrived h) = None ->
+        length (uarrived h) = N /\ ucount_len h = 1%nat)).
+Proof. intros V E N d h. exact (chunkedu_arrival_order N d h). Qed.
+Print Assumptions C02_imapu_chunked_arrival_order.
+
+Theorem C02_imapu_chunked_complete :
+  forall (V E : Type) (N : nat) (d : bool) (h : list (@uev (list V) E)),
+    length (uarrived h) = N -> ucount_len h = 1%nat ->
+    exists s,
+      view (snd (flat_run true flat_init
+                   (map (uev_op N d) h ++
+                    repeat INext (S (length (chunked_expected (uarrived h)))))%list)) =
+        (chunked_expected (uarrived h) ++ repeat OStop (S s))%list.
+Proof. intros V E N d h. exact (chunkedu_complete N d h). Qed.
+Print Assumptions C02_imapu_chunked_complete.
+
 (* ---------------- non-vacuity ---------------- *)
 
 (* 5 inputs, chunk size 2, chunks arriving in the order 2, 0, 1: hypotheses of
@@ -364,3 +506,72 @@ Example C02_imap_chunked_witness :
   = [ORaise 7; OStop; OStop; OStop] /\
   flat_expected [Bad 7; Good [41; 42]] = [ORaise 7; OYield 41; OYield 42; OStop].
 Proof. vm_compute. split; reflexivity. Qed.
+
+(* chunked imap, 3 chunks arriving as 2, 0, 1 with the failing chunk in the middle, the
+   length announced in between, next() calls everywhere: the hypotheses of
+   C02_imap_chunked_in_order hold; the consumer gets chunk 0's values, the error of
+   chunk 1, then only stops -- chunk 2's values stay in the iterator *)
+Example C02_imap_chunked_positive_witness :
+  let chunks := [Good [10; 11]; Bad 7; Good [30; 31]] : list (item (list Z) Z) in
+  let h := [Nxt; Arr 2%nat; Nxt; Len; Arr 0%nat; Nxt; Arr 1%nat; Nxt; Nxt; Nxt; Nxt] in
+  wf chunks h /\ (forall i, (i < 3)%nat -> In i (arrivals h)) /\ count_len h = 1%nat /\
+  chunked_expected chunks = [OYield 10; OYield 11; ORaise 7] /\
+  view (snd (flat_run false flat_init (map (ev_op chunks (Bad 0) true) h)))
+  = [OYield 10; OYield 11; ORaise 7; OStop; OStop] /\
+  i_items (f_inner (fst (flat_run false flat_init (map (ev_op chunks (Bad 0) true) h))))
+  = [Good [30; 31]].
+Proof.
+  cbv zeta. split; [|split; [|split; [reflexivity|split; [reflexivity|vm_compute; split; reflexivity]]]].
+  - split; [|split].
+    + cbn. repeat constructor; cbn; intuition discriminate.
+    + cbn. intros i [<-|[<-|[<-|[]]]]; lia.
+    + cbn. lia.
+  - cbn. intros i Hi. destruct i as [|[|[|i]]]; auto. lia.
+Qed.
+
+(* the same chunks, all good, out of order: the sequential results in input order *)
+Example C02_imap_chunked_all_good_witness :
+  let chunks := map (@Good (list Z) Z) [[10; 11]; [20; 21]; [30]] in
+  let h := [Arr 2%nat; Nxt; Arr 1%nat; Len; Nxt; Arr 0%nat] in
+  wf chunks h /\
+  view (snd (flat_run false flat_init (map (ev_op chunks (Bad 0) false) h ++ repeat INext 6)%list))
+  = [OYield 10; OYield 11; OYield 20; OYield 21; OYield 30; OStop].
+Proof.
+  cbv zeta. split; [|vm_compute; reflexivity].
+  split; [|split].
+  - cbn. repeat constructor; cbn; intuition discriminate.
+  - cbn. intros i [<-|[<-|[<-|[]]]]; lia.
+  - cbn. lia.
+Qed.
+
+(* imap_unordered with chunks: arrival order 2, 0 (fails), 1 *)
+Example C02_imapu_chunked_witness :
+  let h := [UArr 2 (Good [30; 31]); UNxt; ULen; UArr 0 (Bad 7); UNxt; UNxt; UArr 1 (Good [20]);
+            UNxt; UNxt] : list (@uev (list Z) Z) in
+  (length (uarrived h) <= 3)%nat /\ (ucount_len h <= 1)%nat /\
+  chunked_expected (uarrived h) = [OYield 30; OYield 31; ORaise 7] /\
+  view (snd (flat_run true flat_init (map (uev_op 3 true) h)))
+  = [OYield 30; OYield 31; ORaise 7; OStop; OStop].
+Proof. cbv zeta. cbn [uarrived ucount_len length]. repeat split; try lia; vm_compute; reflexivity. Qed.
+
+(* a failing map: 5 inputs, chunk size 2, chunks 1 and 2 fail; handled in the order
+   0, 2, 1 with acknowledgements in between: the record of chunk 2 (handled first) is
+   the outcome *)
+Example C02_map_failure_witness :
+  let l := [1; 2; 3; 4; 5] in
+  let F := fun i => (1 <=? i)%nat in
+  let e_of := fun i => 700 + Z.of_nat i in
+  let h := [Ack 0%nat; Dlv 0%nat; Ack 2%nat; Dlv 2%nat; Ack 1%nat; Dlv 1%nat] in
+  NoDup (dlvs h) /\ (forall x, In x (dlvs h) -> (x < length (chunks l 2))%nat) /\
+  (forall x, In x (acks h) -> (x < length (chunks l 2))%nat) /\
+  find F (dlvs h) = Some 2%nat /\
+  map_get (fst (map_run (map_init (E := Z) 0 5 2 true true)
+                        (map (mev_op (fun x => x * 10) l 2 e_of F) h))) = ORaise 702.
+Proof.
+  cbv zeta. split; [|split; [|split; [|split]]].
+  - cbn. repeat constructor; cbn; intuition discriminate.
+  - cbn. intros x [<-|[<-|[<-|[]]]]; lia.
+  - cbn. intros x [<-|[<-|[<-|[]]]]; lia.
+  - reflexivity.
+  - vm_compute. reflexivity.
+Qed.
